@@ -83,12 +83,102 @@ def gil_flag_params(params, body):
     return out
 
 
-def delivers(body, env):
-    """may a delivering call of the body execute under the partial assignment env?  (None when the body has no delivering call)"""
-    sites = [(c, off) for c, off in sC45.c_callees(body) if sC45.DELIVER.match(c)]
+TRUE_DELIVERY = re.compile(r'^(PyMonitoring_Fire\w+Event|c_profilefunc|c_tracefunc)$')
+EARLY_EXIT = re.compile(r'^if\s*\((?P<c>.*)\)\s*\{?\s*(return\b[^;{}]*;|goto\s+\w+\s*;|break\s*;|continue\s*;)\s*\}?\s*$', re.S)
+
+
+def profile_functions(ctx):
+    """{name: [(parameter names, body)]} of every static function defined in Profile.c (also those indented inside the macro block, which the
+    catalogue does not list), and {name: replacement text} of the object-like macros of the file"""
+    def build():
+        text = strip_c_comments(ctx.read(REL_PROFILE))
+        funcs = {}
+        for m in re.finditer(r'\bstatic\s+[\w\s\*]+?\b(\w+)\s*\(([^;{}()]*(?:\([^()]*\))?[^;{}()]*)\)\s*\{', text):
+            b0 = m.end() - 1
+            b1 = sC45._match_brace(text, b0)
+            if b1 < 0:
+                continue
+            funcs.setdefault(m.group(1), []).append(([_pname(p) for p in split_args(m.group(2))], text[b0 + 1:b1]))
+        aliases = {}
+        for m in re.finditer(r'^[ \t]*#[ \t]*define[ \t]+(\w+)[ \t]+([^\\\n]+)$', text, re.M):
+            aliases.setdefault(m.group(1), set()).add(m.group(2).strip())
+        return funcs, {k: next(iter(v)) for k, v in aliases.items() if len(v) == 1}
+    return ctx.memo('dD3.profile_functions', build)
+
+
+def _expand_aliases(body, env, aliases):
+    """replace object-like macros of Profile.c (not the variables of env) that stand for an expression over configuration constants"""
+    for _ in range(2):
+        def sub(m):
+            n = m.group(0)
+            if n in env or n not in aliases:
+                return n
+            rep = aliases[n]
+            if re.fullmatch(r'[\w\s!&|()<>=]+', rep) and re.search(r'[A-Z]', rep) and not re.fullmatch(r'\d+', rep):
+                return '(%s)' % rep
+            return n
+        new = re.sub(r'\b[A-Za-z_]\w*\b(?!\s*\()', sub, body)
+        if new == body:
+            break
+        body = new
+    return body
+
+
+def reach(body, pos, env):
+    """sC45.reach plus early exits: a preceding `if (c) return;` (goto / break / continue) whose condition is true under env makes pos unreachable"""
+    v = sC45.reach(body, pos, env)
+    if v is False:
+        return False
+    for st in cguard.dominators(body, pos):
+        m = EARLY_EXIT.match(st.strip())
+        if not m:
+            continue
+        try:
+            t = sC45._tri(cexpr.parse(m.group('c')), env)
+        except Exception:
+            t = None
+        if t is True:
+            return False
+        if t is None:
+            v = None
+    return v
+
+
+def delivers(body, env, ctx=None, depth=0):
+    """may a delivering call of the body execute under the partial assignment env?  (None when the body has no delivering call).  Helper
+    functions of Profile.c are followed: arguments that are variables of env or integer literals are bound to the helper's parameters."""
+    funcs, aliases = profile_functions(ctx) if ctx is not None else ({}, {})
+    body = _expand_aliases(body, env, aliases)
+    inner = depth > 0
+    sites = []
+    for c, off in sC45.c_callees(body):
+        if TRUE_DELIVERY.match(c) or (c in funcs and depth < 2) or (not inner and sC45.DELIVER.match(c)):
+            sites.append((c, off))
     if not sites:
         return None
-    return any(sC45.reach(body, off, env) is not False for _, off in sites)
+    res = False
+    for c, off in sites:
+        if reach(body, off, env) is False:
+            continue
+        if c in funcs and depth < 2:
+            lp = body.find('(', off)
+            rp = match_paren(body, lp)
+            args = [a.strip() for a in split_args(body[lp + 1:rp])] if rp > 0 else []
+            verdicts = []
+            for params, fbody in funcs[c]:
+                env2 = {k: v for k, v in env.items() if k.isupper() or k.startswith('__Pyx_')}
+                for p_, a in zip(params, args):
+                    a = a.strip('() ')
+                    if a in env:
+                        env2[p_] = env[a]
+                    elif re.fullmatch(r'\d+', a):
+                        env2[p_] = int(a)
+                verdicts.append(delivers(fbody, env2, ctx, depth + 1))
+            if any(v is None or v for v in verdicts):
+                return True
+            continue
+        return True
+    return res
 
 
 def _emitted_macros(ctx):
@@ -178,7 +268,7 @@ def rule_closegate(ctx):
                 env = {'CYTHON_TRACE_NOGIL': c, '__Pyx_use_tracing': 1}
                 for p in flags:
                     env[p] = f
-                t[(f, c)] = delivers(body, env)
+                t[(f, c)] = delivers(body, env, ctx)
             return t, flags
         start_tabs = []
         for name in sorted(starts):
@@ -600,7 +690,7 @@ def defer_problems(ctx, m, qn, owner, fn, d, emitters):
 def rule_defer(ctx):
     r = Rule('C45-DEFER', 'a code generator that runs a second child on the intercepted return path (try-finally) marks the function state while it generates its body, every node '
              'that reports the return event itself stays silent while the mark is set, and the generator reports the event after the second child, on the return path, '
-             'when the mark is clear again; all writers of the mark are balanced', floor=2)
+             'when the mark is clear again; all writers of the mark are balanced', floor=1)
     ix = ctx.index
     found = interceptors(ctx)
     emitters = _return_emitters(ctx)
@@ -766,6 +856,7 @@ def rule_skipstart(ctx):
     if not slots:
         r.info('no parameter of a start macro can suppress the start event')
     method_of = {v: k for k, v in EVENT_METHODS.items()}
+    reported = set()
     # ---- (A) what the compiler writes into the suppressing slots
     for ccw, fn, n, macro, args, exprs, env, params in ems:
         if macro not in starts:
@@ -816,9 +907,11 @@ def rule_skipstart(ctx):
                         if e2 is not None and any(node_src(v2, 60) in flag_texts for v2, _ in _alternatives(e2, env2)):
                             closing_with_flag.add(macro2)
             missing = sorted(closes - closing_with_flag)
-            if missing:
-                site = users[0] if users else None
-                r.violate('%s:start-skipped-by:%s' % (('%s.%s' % (site[0].short, site[1])) if site else 'Code.CCodeWriter.%s' % fn.name, '|'.join(sorted(flag_texts))),
+            site = users[0] if users else None
+            vkey = '%s:start-skipped-by:%s' % (('%s.%s' % (site[0].short, site[1])) if site else 'Code.CCodeWriter.%s' % fn.name, '|'.join(sorted(flag_texts)))
+            if missing and vkey not in reported:
+                reported.add(vkey)
+                r.violate(vkey,
                           site[0].rel if site else 'Cython/Compiler/Code.py', site[2].lineno if site else n.lineno,
                           '%s hands the run-time flag %s to the parameter of %s that suppresses the start event (selected by %s at %s), but the closing events %s of the same '
                           'function are reported regardless of the flag: a call with the flag set reports a return without a call, on a frame that never received its call '
